@@ -1,5 +1,6 @@
 """C13 - option values resolve by the documented precedence, deterministically."""
 import itertools
+import os
 import re
 
 from .. import engine, gen, runner, term
@@ -109,6 +110,7 @@ class Placement(object):
         self.gcp_format = 'new'
         self.env_features = None
         self.no_gitconfig = False
+        self.cfg_where = '--config'   # or 'home' (~/.gitconfig), 'xdg' ($XDG_CONFIG_HOME/git/config)
         self.expected = None
         self.why = ''
         self.family = ''
@@ -127,9 +129,17 @@ class Placement(object):
     def run_args(self):
         args = []
         cfg = self.gitconfig_text()
-        if cfg is not None:
+        self.home = None
+        if cfg is not None and self.cfg_where == '--config':
             path = runner.write_file('c13_%d.gitconfig' % abs(hash(cfg)), cfg)
             args += ['--config', path]
+        elif cfg is not None:
+            # the places git itself reads: delta finds them through libgit2's default configuration
+            self.home = os.path.join(runner.workdir(), 'tmp', 'c13home_%d_%d' % (os.getpid(), abs(hash((cfg, self.cfg_where)))))
+            os.makedirs(os.path.join(self.home, '.config', 'git'), exist_ok=True)
+            target = os.path.join(self.home, '.gitconfig') if self.cfg_where == 'home' else os.path.join(self.home, '.config', 'git', 'config')
+            with open(target, 'w') as f:
+                f.write(cfg)
         if self.no_gitconfig:
             args.append('--no-gitconfig')
         if self.features_arg is not None:
@@ -211,9 +221,15 @@ def families():
             for how in ('arg', 'main', 'env', 'env+arg', 'env+main'):
                 yield ('nested', (o, depth, how))
         # F7: --no-gitconfig
-        for srcs in (('main',), ('feature-main',), ('main', 'feature-main')):
+        for srcs in (('main',), ('feature-main',), ('main', 'feature-main'), ('gcp-new',), ('main', 'gcp-old'), ('feature-env',),
+                     ('main', 'feature-env', 'gcp-new')):
             for with_cli in (False, True):
-                yield ('no-gitconfig', (o, srcs, with_cli))
+                for where in ('--config', 'home', 'xdg'):
+                    yield ('no-gitconfig', (o, srcs, with_cli, where))
+        # F8: the configuration found where git keeps it (~/.gitconfig, $XDG_CONFIG_HOME/git/config) ranks like --config
+        for where in ('home', 'xdg'):
+            for how in ('arg', 'main', 'env'):
+                yield ('config-location', (o, where, how))
         # default only
         yield ('default', (o,))
     for b, (o, _v) in sorted(BUILTIN_SETS.items()):
@@ -304,11 +320,24 @@ def build(family, params, defaults):
         p.expected = S[0]
         p.why = 'features enabled by an enabled feature are enabled'
         p.nsources = 1
+    elif family == 'config-location':
+        o, where, how = params
+        S = sentinels(o, 6)
+        p = Placement(o)
+        p.cfg_where = where
+        p.main[o] = S[0]
+        p.sections['f1'] = {o: S[1]}
+        p.sections['f2'] = {o: S[2]}
+        enable_list(p, ['f1', 'f2'], how)
+        p.expected = S[0]
+        p.why = 'the main [delta] section of %s beats every feature' % ('~/.gitconfig' if where == 'home' else '$XDG_CONFIG_HOME/git/config')
+        p.nsources = 3
     elif family == 'no-gitconfig':
-        o, srcs, with_cli = params
+        o, srcs, with_cli, where = params
         S = sentinels(o, 6)
         p = Placement(o)
         p.no_gitconfig = True
+        p.cfg_where = where
         i = 0
         for src in srcs:
             put_source(p, o, src, S[i])
@@ -453,7 +482,7 @@ def run_placement(p, reps, label):
     for k in range(reps):
         e = dict(env)
         e['ZZ_%d' % k] = '1'     # perturb the environment block
-        r = runner.run_delta(args, b'', env=e, stdin_is_none=True)
+        r = runner.run_delta(args, b'', env=e, stdin_is_none=True, home=getattr(p, 'home', None))
         counters['show_config_runs'] += 1
         c = crashmod.classify(r)
         if c is not None:
